@@ -325,8 +325,8 @@ theorem stripTrail_cons (q : QItem) (r : List QItem) :
   · have h' : List.dropWhile isLitBlank r.reverse = [] := by simpa using h
     rw [if_pos h, h']
     by_cases hq : isLitBlank q = true
-    · simp [List.dropWhile_cons, hq]
-    · simp [List.dropWhile_cons, hq]
+    · simp [hq]
+    · simp [hq]
   · have h' : List.dropWhile isLitBlank r.reverse ≠ [] := by simpa using h
     rw [if_neg h]
     have : ¬ ((List.dropWhile isLitBlank r.reverse).reverse = [] ∧ isLitBlank q = true) := by
@@ -421,5 +421,220 @@ theorem stripLead_getLast (qcol : Nat) (l : List QItem) : ∀ w q,
         · have h1 : stripLead qcol w (QItem.lit c :: r) = QItem.lit c :: r := by
             simp [stripLead, hsp, htab]
           rw [h1] at h; exact h
+
+/-! ## all lines -/
+
+/-- the first line is not a continuation line -/
+def lead (qcol : Nat) (first : Bool) (l : List QItem) : List QItem :=
+  if first then l else stripLead qcol 0 l
+
+/-- the lines after passes 1 and 2, when the first of them is (`first = false`) or is not a
+continuation line -/
+def outLines (qcol : Nat) (first : Bool) (lines : List (List QItem)) : List (List QItem) :=
+  match mapInit stripTrail lines with
+  | [] => []
+  | x :: xs => lead qcol first x :: xs.map (stripLead qcol 0)
+
+theorem outLines_true (qcol : Nat) (raw : List QItem) :
+    outLines qcol true (splitLines raw) = strippedLines qcol raw := by
+  unfold outLines strippedLines
+  cases mapInit stripTrail (splitLines raw) with
+  | nil => rfl
+  | cons x xs => simp [lead, mapTail]
+
+theorem mapInit_cons2 (f : List QItem → List QItem) (a b : List QItem) (r : List (List QItem)) :
+    mapInit f (a :: b :: r) = f a :: mapInit f (b :: r) := by
+  simp [mapInit]
+
+theorem outLines_cons2 (qcol : Nat) (first : Bool) (a b : List QItem) (r : List (List QItem)) :
+    outLines qcol first (a :: b :: r) = lead qcol first (stripTrail a) :: outLines qcol false (b :: r) := by
+  unfold outLines
+  rw [mapInit_cons2]
+  cases h : mapInit stripTrail (b :: r) with
+  | nil => cases r <;> simp [mapInit] at h
+  | cons x xs => simp [lead]
+
+theorem outLines_ne_nil (qcol : Nat) (first : Bool) (b : List QItem) (r : List (List QItem)) :
+    outLines qcol first (b :: r) ≠ [] := by
+  unfold outLines
+  cases h : mapInit stripTrail (b :: r) with
+  | nil => cases r <;> simp [mapInit] at h
+  | cons x xs => simp
+
+theorem joinLines_cons (a : List QItem) (r : List (List QItem)) (hr : r ≠ []) :
+    joinLines (a :: r) = a ++ QItem.lit '\n' :: joinLines r := by
+  cases r with
+  | nil => exact absurd rfl hr
+  | cons b r => rfl
+
+theorem stepC_lf (qcol : Nat) (s : QS) : stepC qcol s (.lit '\n') = ⟨trimC s.text ++ ['\n'], false, 0⟩ := by
+  simp [stepC]
+
+theorem fold_lines (qcol : Nat) : ∀ (ls : List (List QItem)) (l : List QItem) (first : Bool)
+    (T : List Char) (w : Nat),
+    (∀ x ∈ l :: ls, noLF x) →
+    (T = [] ∨ ∃ x, T.getLast? = some x ∧ isBlank x = false) →
+    (first = false → w = 0) →
+    (∀ x ∈ (l :: ls).dropLast, ∀ q, (stripTrail x).getLast? = some q → isEscBlank q = false) →
+    ((joinLines (l :: ls)).foldl (stepC qcol) ⟨T, first, w⟩).text =
+      T ++ substAll (joinLines (outLines qcol first (l :: ls))) := by
+  intro ls
+  induction ls with
+  | nil =>
+    intro l first T w hlf _ hw _
+    have hl : noLF l := hlf l (by simp)
+    simp only [joinLines, outLines, mapInit, List.map_nil]
+    cases first with
+    | true => rw [fold_line_over qcol l hl]; simp [lead]
+    | false =>
+      rw [hw rfl, fold_line_notover qcol l hl]; simp [lead]
+  | cons l2 ls ih =>
+    intro l first T w hlf hT hw hok
+    have hl : noLF l := hlf l (by simp)
+    rw [joinLines_cons l (l2 :: ls) (by simp), List.foldl_append, List.foldl_cons, stepC_lf]
+    rw [outLines_cons2, joinLines_cons _ _ (outLines_ne_nil qcol false l2 ls)]
+    have htext : (List.foldl (stepC qcol) ⟨T, first, w⟩ l).text = T ++ substAll (lead qcol first l) := by
+      cases first with
+      | true => rw [fold_line_over qcol l hl]; simp [lead]
+      | false => rw [hw rfl, fold_line_notover qcol l hl]; simp [lead]
+    rw [htext]
+    have hcomm : stripTrail (lead qcol first l) = lead qcol first (stripTrail l) := by
+      cases first with
+      | true => simp [lead]
+      | false => simp only [lead, Bool.false_eq_true, if_false]; exact strip_comm qcol l 0
+    have htrim : trimC (T ++ substAll (lead qcol first l)) = T ++ substAll (lead qcol first (stripTrail l)) := by
+      rw [trim_substAll T _ hT, hcomm]
+      intro q hq
+      rw [hcomm] at hq
+      apply hok l (by simp [List.dropLast]) q
+      cases first with
+      | true => simpa [lead] using hq
+      | false =>
+        simp only [lead, Bool.false_eq_true, if_false] at hq
+        exact stripLead_getLast qcol _ 0 q hq
+    rw [htrim]
+    rw [ih l2 false _ 0 (fun x hx => hlf x (List.mem_cons_of_mem _ hx))
+      (Or.inr ⟨'\n', by simp, by decide⟩) (fun _ => rfl)
+      (fun x hx => hok x (by
+        simp only [List.dropLast_cons_cons] at hx ⊢
+        exact List.mem_cons_of_mem _ hx))]
+    simp [substAll_append, substAll_cons, itemValue]
+
+/-- no line of the raw text ends, trailing literal blanks aside, in a backslash pair that stands
+for a blank (exclusion (3) of the property) -/
+def noEscBlankEnd (raw : List QItem) : Prop :=
+  ∀ x ∈ (splitLines raw).dropLast, ∀ q, (stripTrail x).getLast? = some q → isEscBlank q = false
+
+/-- **(b)**: the single-pass loop computes the three passes of RFC 7950 6.1.3 -/
+theorem implValue_eq (qcol : Nat) (raw : List QItem) (h : noEscBlankEnd raw) :
+    implValue qcol raw = substAll (joinLines (strippedLines qcol raw)) := by
+  unfold implValue
+  have hj := join_split raw
+  cases hs : splitLines raw with
+  | nil => exact absurd hs (splitLines_ne_nil raw)
+  | cons l ls =>
+    rw [hs] at hj
+    have := fold_lines qcol ls l true [] qcol (by rw [← hs]; exact split_noLF raw) (Or.inl rfl)
+      (fun h => by cases h) (by rw [← hs]; exact h)
+    rw [hj] at this
+    rw [this, ← hs, outLines_true]
+    simp
+
+/-- in pattern mode the loop's text is the value of the string -/
+theorem dequote_true (qcol : Nat) (raw : List QItem) (h : noEscBlankEnd raw) :
+    dequote true qcol raw = some (implValue qcol raw) := by
+  unfold dequote
+  rw [subst_true, implValue_eq qcol raw h]
+
+theorem all_validEsc_stripLead (qcol : Nat) (l : List QItem) : ∀ w,
+    (stripLead qcol w l).all validEsc = l.all validEsc := by
+  induction l with
+  | nil => intro w; simp [stripLead_nil]
+  | cons x r ih =>
+    intro w
+    cases x with
+    | esc c => simp [stripLead]
+    | lit c =>
+      unfold stripLead
+      split
+      · split
+        · rw [ih]; simp [validEsc]
+        · rfl
+      · split
+        · split
+          · rw [ih]; simp [validEsc]
+          · rfl
+        · rfl
+
+theorem mem_takeWhile_pos {α : Type} (p : α → Bool) : ∀ (l : List α) (x : α), x ∈ l.takeWhile p → p x = true := by
+  intro l
+  induction l with
+  | nil => intro x h; simp at h
+  | cons a r ih =>
+    intro x h
+    rw [List.takeWhile_cons] at h
+    split at h
+    · rename_i ha
+      simp only [List.mem_cons] at h
+      rcases h with h | h
+      · rw [h]; exact ha
+      · exact ih x h
+    · simp at h
+
+theorem all_validEsc_stripTrail (l : List QItem) : (stripTrail l).all validEsc = l.all validEsc := by
+  unfold stripTrail
+  rw [List.all_reverse]
+  have h := @List.takeWhile_append_dropWhile _ isLitBlank l.reverse
+  have h2 : l.all validEsc = l.reverse.all validEsc := by rw [List.all_reverse]
+  rw [h2, ← h, List.all_append]
+  have h3 : (List.takeWhile isLitBlank l.reverse).all validEsc = true := by
+    rw [List.all_eq_true]
+    intro x hx
+    have := mem_takeWhile_pos _ _ _ hx
+    cases x with
+    | lit c => rfl
+    | esc c => simp [isLitBlank] at this
+  rw [h3, h]; simp
+
+theorem all_validEsc_join (ls : List (List QItem)) :
+    (joinLines ls).all validEsc = ls.all (fun l => l.all validEsc) := by
+  induction ls with
+  | nil => rfl
+  | cons l r ih =>
+    cases r with
+    | nil => simp [joinLines]
+    | cons l2 r =>
+      rw [joinLines_cons l (l2 :: r) (by simp), List.all_append, List.all_cons, ih]
+      simp [validEsc]
+
+theorem all_validEsc_out (qcol : Nat) : ∀ (ls : List (List QItem)) (first : Bool),
+    (outLines qcol first ls).all (fun l => l.all validEsc) = ls.all (fun l => l.all validEsc) := by
+  intro ls
+  induction ls with
+  | nil => intro first; rfl
+  | cons l r ih =>
+    intro first
+    cases r with
+    | nil =>
+      simp only [outLines, mapInit, List.map_nil, List.all_cons, List.all_nil, Bool.and_true]
+      cases first with
+      | true => simp [lead]
+      | false => simp only [lead, Bool.false_eq_true, if_false]; exact all_validEsc_stripLead qcol l 0
+    | cons l2 r =>
+      rw [outLines_cons2, List.all_cons, ih false, List.all_cons]
+      congr 1
+      cases first with
+      | true => simp only [lead, if_true]; exact all_validEsc_stripTrail l
+      | false =>
+        simp only [lead, Bool.false_eq_true, if_false]
+        rw [all_validEsc_stripLead, all_validEsc_stripTrail]
+
+/-- outside pattern mode the string has a value only if every backslash pair is one RFC 7950
+defines, and then it is the same value -/
+theorem dequote_false (qcol : Nat) (raw : List QItem) (h : noEscBlankEnd raw) :
+    dequote false qcol raw = if raw.all validEsc then some (implValue qcol raw) else none := by
+  unfold dequote
+  rw [subst_false, implValue_eq qcol raw h, all_validEsc_join, ← outLines_true, all_validEsc_out,
+    ← all_validEsc_join, join_split]
 
 end Goyang.Lemmas.QStr
